@@ -54,7 +54,8 @@ def dflt_spec(dflt):
 
 
 def enforce_case(rules, call, target, creds, dflt=None, registered=(), enforce_scope=True, check_scopes=(),
-                 http=None, checklog=0, rng=None, want='', creds_obj=None, enforcer=None, extra=None, via='rules_obj', target_obj=None):
+                 http=None, checklog=0, rng=None, want='', creds_obj=None, enforcer=None, extra=None, via='rules_obj', target_obj=None,
+                 runner=None):
     """rules: list of (name, tree).  call: dict(by, name|tree, doraise, custom,
     authorize, credskind[, xargs, xkw]).  target/creds: Python values (creds
     may be replaced by ``creds_obj`` - e.g. a RequestContext - for the real
@@ -80,7 +81,7 @@ def enforce_case(rules, call, target, creds, dflt=None, registered=(), enforce_s
     if call.get('doraise') or call.get('custom'):
         args.append(bool(call.get('doraise')))
         if call.get('custom'):
-            args.append(ev.CustomExc)
+            args.append(ev.CUSTOM_CLASSES[call.get('excls', 0) % len(ev.CUSTOM_CLASSES)])
             args.extend(xargs)
             kwargs.update(xkw)
         elif xargs or xkw:
@@ -89,12 +90,14 @@ def enforce_case(rules, call, target, creds, dflt=None, registered=(), enforce_s
                 args.append(None)
                 args.extend(xargs)
             kwargs.update(xkw)
-    obs = ev.observe(lambda: fn(*args, **kwargs))
+    obs = ev.observe((lambda: runner(lambda: fn(*args, **kwargs))) if runner else (lambda: fn(*args, **kwargs)))
     obs['log'] = [list(x) for x in ev.PROBE_LOG]
     obs['named'] = 1 if (obs['cls'] == 'PolicyNotAuthorized' and call['by'] == 'name' and
                          obs['msg'] == '%s is disallowed by policy' % call['name']) or \
         (obs['cls'] == 'PolicyNotAuthorized' and call['by'] == 'check') else 0
-    obs['argsok'] = 1 if obs['cls'] == 'Custom' and obs.get('xargs') == list(xargs) and obs.get('xkw') == sorted(xkw.items()) else 0
+    obs['argsok'] = 1 if obs['cls'] == 'Custom' and obs.get('xargs') == list(xargs) and obs.get('xkw') == sorted(xkw.items()) and \
+        obs.get('exact') == ev.CUSTOM_CLASSES[call.get('excls', 0) % len(ev.CUSTOM_CLASSES)].__name__ else 0
+    obs.pop('exact', None)
     obs['target_unchanged'] = 1 if fingerprint(tgt) == before else 0
     obs.pop('xargs', None)
     obs.pop('xkw', None)
@@ -127,6 +130,26 @@ def enforce_case(rules, call, target, creds, dflt=None, registered=(), enforce_s
     return c
 
 
+def interference_cases(rules, name, a, b, want, rng, quick, dflt=('opt', None), funcs=('__call__', '_find_in_dict', '_check', '_interpolate', '_format_match')):
+    """Non-interference: call A (target, creds) is suspended at a line event inside the evaluation of its
+    checks while call B (another target / credentials, same enforcer, same check objects) runs completely;
+    A's outcome is judged by the specification on A's own arguments."""
+    from harness import core, sched
+    texts = {n: ev.rule_text(t) for n, t in rules}
+    e = ev.make_enforcer(texts, dflt)
+    prof = sched.line_profile(core.REPO, lambda: e.enforce(name, _snapshot(a[0]), _snapshot(a[1])))
+    ks = [i + 1 for i, (fn, ln) in enumerate(prof) if fn in funcs]
+    if quick and len(ks) > 10:
+        ks = sorted(rng.sample(ks, 10))
+    out = []
+    for k in ks:
+        def runner(thunk, k=k):
+            return sched.interleaved(core.REPO, k, thunk, lambda: e.enforce(name, _snapshot(b[0]), _snapshot(b[1])))
+        out.append(enforce_case(rules, {'by': 'name', 'name': name}, a[0], a[1], dflt=dflt, want=want, enforcer=e, runner=runner,
+                                extra={'_concurrent_call': 'suspended at line event %d (%s line %s) while enforce(%r, %r, %r) ran' % (k, prof[k - 1][0], prof[k - 1][1], name, b[0], b[1])}))
+    return out
+
+
 def strip_case(c):
     return {k: v for k, v in c.items() if not k.startswith('_')}
 
@@ -145,7 +168,7 @@ def judge(ctx, cases, chunk=20000, timeout=3000):
 
 
 def describe(c):
-    d = {k: c.get(k) for k in ('_texts', '_dflt', '_via', '_registered', '_enforce_scope', '_call', '_target', '_creds', 'obs', 'want')}
+    d = {k: c.get(k) for k in ('_texts', '_dflt', '_via', '_registered', '_enforce_scope', '_call', '_target', '_creds', 'obs', 'want', '_concurrent_call', '_session', '_list_value')}
     d['reproduce'] = ('build an Enforcer with rules %r (default rule %s), then call %s' % (c.get('_texts'), c.get('_dflt'), c.get('_call')))
     return d
 
